@@ -8,11 +8,24 @@ import (
 )
 
 func init() {
+	// index-building ops also check that the input words are left untouched: a build that
+	// scribbles on its argument is reported as a panic-class observation ("P")
 	Exec["bitmap.IndexSelect32"] = func(a []V) string {
-		return I32s(bitmap.IndexSelect32(a[0].U64s()))
+		ws := a[0].U64s()
+		keep := append([]uint64(nil), ws...)
+		r := bitmap.IndexSelect32(ws)
+		if !c02Same(ws, keep) {
+			return Panic
+		}
+		return I32s(r)
 	}
 	Exec["bitmap.IndexSelect32R64"] = func(a []V) string {
-		s, r := bitmap.IndexSelect32R64(a[0].U64s())
+		ws := a[0].U64s()
+		keep := append([]uint64(nil), ws...)
+		s, r := bitmap.IndexSelect32R64(ws)
+		if !c02Same(ws, keep) {
+			return Panic
+		}
 		return L(I32s(s), I32s(r))
 	}
 	// Select32 with the index built by IndexSelect32(words)
@@ -29,7 +42,54 @@ func init() {
 		x, y := bitmap.Select32R64(ws, sidx, ridx, a[1].I32())
 		return L(I32(x), I32(y))
 	}
+	// "held" variants [ws, i, decoy]: the index(es) of ws are built, then the indexes of a decoy
+	// bitmap of the same length are built twice, and only then is ws queried with the FIRST
+	// index - an index must not alias state that a later build overwrites.  The input words
+	// and the held index must also be unchanged by the query itself.
+	Exec["bitmap.Select32/held"] = func(a []V) string {
+		ws := a[0].U64s()
+		keep := append([]uint64(nil), ws...)
+		sidx := bitmap.IndexSelect32(ws)
+		decoy := a[2].U64s()
+		bitmap.IndexSelect32(decoy)
+		bitmap.IndexSelect32R64(decoy)
+		bitmap.IndexSelect32(decoy)
+		x, y := bitmap.Select32(ws, sidx, a[1].I32())
+		x2, y2 := bitmap.Select32(ws, sidx, a[1].I32())
+		if x != x2 || y != y2 || !c02Same(ws, keep) {
+			return Panic
+		}
+		return L(I32(x), I32(y))
+	}
+	Exec["bitmap.Select32R64/held"] = func(a []V) string {
+		ws := a[0].U64s()
+		keep := append([]uint64(nil), ws...)
+		sidx, ridx := bitmap.IndexSelect32R64(ws)
+		decoy := a[2].U64s()
+		bitmap.IndexSelect32R64(decoy)
+		bitmap.IndexSelect32(decoy)
+		bitmap.IndexRank64(decoy, true)
+		bitmap.IndexSelect32R64(decoy)
+		x, y := bitmap.Select32R64(ws, sidx, ridx, a[1].I32())
+		x2, y2 := bitmap.Select32R64(ws, sidx, ridx, a[1].I32())
+		if x != x2 || y != y2 || !c02Same(ws, keep) {
+			return Panic
+		}
+		return L(I32(x), I32(y))
+	}
 	Register("C02", genC02)
+}
+
+func c02Same(a, b []uint64) bool {
+	if len(a) != len(b) {
+		return false
+	}
+	for i := range a {
+		if a[i] != b[i] {
+			return false
+		}
+	}
+	return true
 }
 
 // c02Ones lists the positions of the 1-bits (naive scan; used only for shape
@@ -119,6 +179,44 @@ func genC02(g *Gen) {
 		}
 		g.Do("bitmap.IndexSelect32", L(w), key)
 		g.Do("bitmap.IndexSelect32R64", L(w), key)
+	}
+
+	held := func(ws []uint64, os []int, i int, bucket string) {
+		g.Stat(bucket)
+		decoy := make([]uint64, len(ws))
+		for k := range decoy {
+			decoy[k] = ^uint64(0)
+		}
+		key := c02Key(os, len(ws), i)
+		g.Do("bitmap.Select32/held", L(U64s(ws), Int(i), U64s(decoy)), key)
+		g.Do("bitmap.Select32R64/held", L(U64s(ws), Int(i), U64s(decoy)), key)
+	}
+
+	// (H) held indexes over ASCENDING bitmap lengths 1..70, first thing in the run: an index that
+	// aliases a reused buffer shows when the buffer's capacity boundary is crossed, which depends
+	// on the order of sizes.  The decoy (all-ones) has more checkpoints than any ws of that length.
+	for n := 1; n <= 70; n++ {
+		ws := g.R.Words(n)
+		if n%3 == 0 {
+			for k := range ws {
+				ws[k] = g.R.U64() | g.R.U64()
+			}
+		}
+		ws[g.R.Intn(n)] |= 1 << uint(g.R.Intn(64))
+		os := c02Ones(ws)
+		cnt := len(os)
+		for q := 0; q < 5; q++ {
+			i := g.R.Intn(cnt)
+			switch q {
+			case 0:
+				i = cnt - 1
+			case 1:
+				i = 0
+			case 2:
+				i = (cnt - 1) &^ 31 // the last checkpoint
+			}
+			held(ws, os, i, "held-index-ascending")
+		}
 	}
 
 	// (0) empty and all-zero bitmaps: index only (no valid i)
@@ -308,6 +406,10 @@ func genC02(g *Gen) {
 		}
 		for q := 0; q < 6; q++ {
 			try(g.R.Intn(cnt))
+		}
+		if k%4 == 0 {
+			held(ws, os, g.R.Intn(cnt), "held-index-random")
+			held(ws, os, cnt-1, "held-index-random")
 		}
 	}
 }
